@@ -256,6 +256,11 @@ def names(cfg, crate, ctx, rep):
             elif ptxt in (elem, elem + "?") and (id(h) in via_map or any(r.startswith("via:") and ("try_into" in r or "try_from" in r) for r in roots(payload))):
                 propagated = any(core(tv).r() == elem and "try_" in tv.r() for tv, tn, tf, tc in I.tries) or id(h) in via_map
                 src_txt = "validated name" + (" (error propagated)" if propagated else " (error NOT propagated)")
+            elif (ptxt.endswith("(%s)" % elem) or ptxt.endswith("(%s)?" % elem)) and ("try_from" in ptxt or "try_into" in ptxt) and ptxt.count("(") == 1 + elem.count("("):
+                # the checked conversion written as a call of the (local) TryFrom impl, `?`-propagated
+                call_txt = ptxt.rstrip("?")
+                propagated = ptxt.endswith("?") or any(core(tv).r() == call_txt for tv, tn, tf, tc in I.tries)
+                src_txt = "validated name" + (" (error propagated)" if propagated else " (error NOT propagated)")
             elif ptxt.endswith("(%s)#Ok.0" % elem) and ("try_from" in ptxt or "try_into" in ptxt):
                 # the success payload of a checked conversion of this element, taken apart by a `match`: its failure must
                 # leave the function with an error on these paths
